@@ -5,7 +5,8 @@ import LlgoVerif.Model.Layout
     `q  <target> <term>`        → `a=<size>,<align>,<offs> b=<size>,<align>,<offs> c=<size>,<align>,<fieldalign>,<offs>`
     `set align-table fixed|orig`, `set func-words 1|2` → `ok`; select the variant of the descriptor code used by `q`/`mb`
     every `q`/`mb` answer ends with ` e=<size>,<align>` = the descriptor referenced for an element of that type
-    `mb <target> <key> <elem>`  → `ks=<n> es=<n> bs=<n> a=… b=… c=…`  (the three computations on the bucket struct)
+    `mb <target> <key> <elem>`  → `md=<KeySize>,<ValueSize>,<BucketSize>,<Flags&3> kb=<size>,<align> eb=<size>,<align> ks=<n> es=<n> bs=<n> a=… b=… c=…`
+                                  (emitted map descriptor; key/elem in LLVM; abi sizes; the three computations on the bucket struct)
     `cl <target> <term>`        → `c=<size>,<align>,<offs>` (natural C layout) or `notc`
     `pf <target> <term>`        → `<padFree t> <padFree (toRaw t)>`
     `tg <target>`               → the target record
@@ -129,7 +130,10 @@ def handle (v : Variant) (line : String) : Variant × String :=
     match parseTarget tgs, parseTerm ks, parseTerm vs with
     | some tg, some k, some e =>
       let (a, b, c) := mapSizes tg k e
-      (v, s!"ks={a} es={b} bs={c} " ++ three v tg (mapBucket tg (toRaw k) (toRaw e)))
+      let kb := llSA tg (toRaw k)
+      let eb := llSA tg (toRaw e)
+      (v, s!"md={a},{b},{c},{mapFlags tg k e} kb={kb.1},{kb.2} eb={eb.1},{eb.2} ks={abiSize tg (toRaw k)} es={abiSize tg (toRaw e)} bs={c} "
+            ++ three v tg (mapBucket tg (toRaw k) (toRaw e)))
     | _, _, _ => (v, "bad-op")
   | ["cl", tgs, ts] =>
     match parseTarget tgs, parseTerm ts with
